@@ -522,7 +522,19 @@ class PrimMixin:
 
     def p_builtin_same_object(self, args, kw, st, fr, node):
         a, b = args
+        if isinstance(a, Opaque) and isinstance(b, Opaque):
+            return a is b
         return isinstance(a, Ref) and isinstance(b, Ref) and a == b
+
+    def p_builtin_copy_deepcopy(self, args, kw, st, fr, node):
+        v = args[0]
+        if isinstance(v, tuple) or kind_of(v) in ("int", "real", "bool", "str", "none") or isinstance(v, Opaque):
+            return v          # immutable values: a deep copy is indistinguishable
+        if isinstance(v, Ref) and isinstance(st.get(v), HList):
+            return st.alloc(HList([self.p_builtin_copy_deepcopy([x], {}, st, fr, node) for x in st.get(v).items]))
+        raise Unsupported("deepcopy of %s" % kind_of(v), node)
+
+    p_copy_deepcopy = p_builtin_copy_deepcopy
 
     def p_builtin_shares_buffer(self, args, kw, st, fr, node):
         a, b = args
